@@ -17,18 +17,25 @@ package main
 //                  effective chains = filterOrDefault(config chains) per family
 //   GetPeerConfig  returns the AddPeer-time config (never updated afterwards)
 //   DisposePeer    removes the peer
-//   Replace*Chain  "peer not found" error, otherwise sets the effective chain of
-//                  every configured family unless Chain.Equal says it is unchanged
-//                  (fsmAddressFamily.replace*FilterChain)
-// TestVerifC36FakeConformsToRealServer validates the fake against the real
-// bgpServer (passive peers, no listeners, nothing started) on the
-// observations both offer; the real server's Replace*FilterChain semantics are
-// validated in package server (c36_replace_test.go there).
+//   Replace*Chain  "peer not found" error, otherwise sets the effective chain
+//                  (filterOrDefault(c), like AddPeer) of every configured family
+//                  unless the real Chain.Equal says it is unchanged
+//                  (peer.replace*FilterChain -> fsmAddressFamily.replace*FilterChain)
+// "Effective chain" is an abstraction of the real peer (chains of the existing
+// FSMs' address families and of FSMs created later). That the real server
+// implements exactly this abstraction - in every session state - is not assumed
+// but checked on the real server by TestVerifC36ServerReplaceChains in package
+// protocols/bgp/server (it is where the nil-Adj-RIB panic, the empty-chain
+// default and the stale chains of later sessions were found), and
+// TestVerifC36FakeConformsToRealServer compares fake and real bgpServer
+// (passive peers, no listeners, nothing started) on everything the BGPServer
+// interface exposes. All three runs belong to ./check C36.
 
 import (
 	"fmt"
 	"os"
 	"path/filepath"
+	"runtime/debug"
 	"sort"
 	"strings"
 	"testing"
@@ -81,6 +88,7 @@ type c36Env struct {
 	keys   map[c36Key]bgpserver.PeerKey
 	dir    string
 	nfile  int
+	last   string
 }
 
 type c36Key struct {
@@ -90,10 +98,18 @@ type c36Key struct {
 
 func c36NewEnv(t *testing.T) *c36Env {
 	log.SetLogger(c36NullLog{})
+	debug.SetGCPercent(400)
 	e := &c36Env{reg: vrf.NewVRFRegistry(), keys: map[c36Key]bgpserver.PeerKey{}}
 	e.defVRF = e.reg.CreateVRFIfNotExists(vrf.DefaultVRFName, 0)
 	e.mint = c36NewRealServer(e.defVRF)
-	e.dir = t.TempDir()
+	// configuration files are rewritten several times per case: prefer a RAM
+	// file system when there is one
+	if d, err := os.MkdirTemp("/dev/shm", "verif-c36-"); err == nil {
+		e.dir = d
+		t.Cleanup(func() { os.RemoveAll(d) })
+	} else {
+		e.dir = t.TempDir()
+	}
 	// package globals of cmd/bio-rd used by loadConfig / determineVRF
 	vrfReg = e.reg
 	return e
@@ -133,12 +149,16 @@ func (e *c36Env) peerKey(v *vrf.VRF, ip *bnet.IP) bgpserver.PeerKey {
 	return *out
 }
 
-// load renders c to a file and loads it the way the daemon does.
+// load writes y to the configuration file (unless it already holds y) and
+// loads it the way the daemon does.
 func (e *c36Env) load(y string) (*config.Config, error) {
-	e.nfile++
-	fn := filepath.Join(e.dir, fmt.Sprintf("c%d.yml", e.nfile%8))
-	if err := os.WriteFile(fn, []byte(y), 0o644); err != nil {
-		panic("c36 harness: " + err.Error())
+	fn := filepath.Join(e.dir, "bio-rd.yml")
+	if e.nfile == 0 || e.last != y {
+		if err := os.WriteFile(fn, []byte(y), 0o644); err != nil {
+			panic("c36 harness: " + err.Error())
+		}
+		e.nfile++
+		e.last = y
 	}
 	return config.GetConfig(fn)
 }
@@ -335,20 +355,51 @@ func c36ProbePath() *route.Path {
 	}
 }
 
-// c36Behaviour renders what a chain does to every probe route.
+// c36BehaviourMemo caches c36Behaviour per chain (identified by its filter
+// objects: filters are immutable once built by the loader). Reset per case.
+// The memo keeps the chain itself, so a filter cannot be garbage collected and
+// its address reused by another filter while the entry exists.
+type c36MemoEntry struct {
+	chain filter.Chain
+	v     string
+}
+
+var c36BehaviourMemo = map[string]c36MemoEntry{}
+
 func c36Behaviour(c filter.Chain) string {
+	if len(c) == 0 {
+		return c36BehaviourUncached(c)
+	}
+	var kb strings.Builder
+	for _, f := range c {
+		fmt.Fprintf(&kb, "%p,", f)
+	}
+	k := kb.String()
+	if e, ok := c36BehaviourMemo[k]; ok {
+		return e.v
+	}
+	v := c36BehaviourUncached(c)
+	c36BehaviourMemo[k] = c36MemoEntry{chain: c, v: v}
+	return v
+}
+
+var c36TheProbePath = c36ProbePath()
+
+// c36BehaviourUncached renders what a chain does to every probe route.
+func c36BehaviourUncached(c filter.Chain) string {
 	var sb strings.Builder
 	for i, p := range c36Probes {
 		if i > 0 {
 			sb.WriteByte(' ')
 		}
-		res, reject := c.Process(p, c36ProbePath())
+		// Chain.Process works on a copy of the path it is given
+		res, reject := c.Process(p, c36TheProbePath)
 		if reject {
 			sb.WriteString("R")
 			continue
 		}
 		b := res.BGPPath
-		fmt.Fprintf(&sb, "A(lp=%d,med=%d,as=%s,nh=%s)", b.BGPPathA.LocalPref, b.BGPPathA.MED, b.ASPath.String(), b.BGPPathA.NextHop.String())
+		fmt.Fprintf(&sb, "A(lp=%d,med=%d,as=%s,nh=%s)", b.BGPPathA.LocalPref, b.BGPPathA.MED, strings.ReplaceAll(b.ASPath.String(), " ", "_"), b.BGPPathA.NextHop.String())
 	}
 	return sb.String()
 }
@@ -461,6 +512,19 @@ func c36Compare(got, want *c36Snap) []string {
 		for _, f := range c36DiffPeer(g, w) {
 			gv, _ := g.get(f)
 			wv, _ := w.get(f)
+			if strings.HasSuffix(f, ".import") || strings.HasSuffix(f, ".export") {
+				gs, ws := strings.Split(gv, " "), strings.Split(wv, " ")
+				if len(gs) == len(c36ProbePfx) && len(ws) == len(c36ProbePfx) {
+					var d []string
+					for i := range gs {
+						if gs[i] != ws[i] && len(d) < 4 {
+							d = append(d, fmt.Sprintf("route %s: reload %s, fresh %s", c36ProbePfx[i], gs[i], ws[i]))
+						}
+					}
+					out = append(out, fmt.Sprintf("session %s: effective %s policy differs (R=reject, A=accept): %s", n, f, strings.Join(d, "; ")))
+					continue
+				}
+			}
 			out = append(out, fmt.Sprintf("session %s: %s after reload = %q, fresh start = %q", n, f, gv, wv))
 		}
 	}
@@ -508,6 +572,7 @@ func TestVerifC36Reload(t *testing.T) {
 	rapid.Check(t, func(t *rapid.T) {
 		c := rec.Case()
 		defer c.Done()
+		c36BehaviourMemo = map[string]c36MemoEntry{}
 
 		n := rapid.SampledFrom([]int{2, 2, 2, 3, 4}).Draw(t, "steps")
 		var yamls []string
